@@ -13,7 +13,8 @@ RULE = ("each case is a multi-conformation input: the repository's five conf-* f
         "atom lists of every conformation against the harness's own reading of the input: own atoms "
         "untouched, compatible atoms of other conformations present, no residue with two residue names. "
         "Non-trivial: a reported group exists in a proper non-empty subset of the conformations, or >= 3 "
-        "conformations; distinct = distinct input digests.")
+        "conformations; distinct = distinct input digests."
+        " Same-state cases: alternate locations that repeat one set of coordinates (2-3 states on part of 1-3 residues; plain, --protonate-all, or -k with supplied hydrogens moved off the ideal positions): every conformation and AVR equal the structure written without alternate locations.")
 ASSUMPTIONS = ["groups are identified across conformations by (chain, number, insertion code, atom name, type)",
                "determinants are compared per (type, partner label), which is what the output shows"]
 TIMEOUT = {"quick": 2400, "thorough": 14400}
